@@ -64,6 +64,12 @@ pub struct DirScript {
     /// 3 = consecutive messages are merged into one (flushed when the sender goes quiet for `gap_ms`)
     #[serde(default)]
     pub ws_mode: u8,
+    /// WebSocket carrier, message-level edits (any `ws_mode` != 0; message indices count the data messages of this
+    /// direction from 0): (message, operation, argument) with operation 0 = drop, 1 = send twice, 2 = swap with the next
+    /// one, 3 = flip a bit of payload byte `argument`, 4 = remove the first `argument` payload bytes, 5 = keep only the
+    /// first `argument` payload bytes
+    #[serde(default)]
+    pub ws_ops: Vec<(u64, u8, u64)>,
 }
 
 impl DirScript {
@@ -331,6 +337,8 @@ where
     let mut http_done = false;
     let mut off = 0u64; // payload-stream offset of the next payload byte
     let mut held: Vec<u8> = Vec::new(); // ws_mode 3: payload waiting to be merged with what follows
+    let mut midx = 0u64; // index of the next data message
+    let mut swapped: Option<Vec<u8>> = None; // a message held back to go out after the next one
     let gap = Duration::from_millis(script.gap_ms.max(1));
     loop {
         let n = if script.ws_mode == 3 && !held.is_empty() {
@@ -393,6 +401,40 @@ where
             }
             let start = off;
             off += payload.len() as u64;
+            // message-level edits
+            let mut payload = payload;
+            let mut copies = 1;
+            let mut hold = false;
+            for (_, op, arg) in script.ws_ops.iter().filter(|(m, _, _)| *m == midx) {
+                match op {
+                    0 => copies = 0,
+                    1 => copies = 2,
+                    2 => hold = true,
+                    3 if !payload.is_empty() => {
+                        let k = (*arg as usize) % payload.len();
+                        payload[k] ^= 0x20;
+                    }
+                    4 => {
+                        let k = (*arg as usize).min(payload.len());
+                        payload.drain(..k);
+                    }
+                    5 => payload.truncate(*arg as usize),
+                    _ => {}
+                }
+            }
+            midx += 1;
+            if hold {
+                swapped = Some(payload);
+                continue;
+            }
+            if copies == 0 {
+                continue;
+            }
+            if copies == 2 {
+                if wr.write_all(&ws_frame(&payload, 2, is_c2s, start ^ 0x55)).await.is_err() {
+                    return 2;
+                }
+            }
             if conn == 0 {
                 let mut o = rec.lock().unwrap();
                 if is_c2s {
@@ -422,6 +464,7 @@ where
                     }
                     let many = pieces.len() > 1;
                     let mut sent = start;
+                    let after = swapped.take();
                     for p in pieces {
                         if wr.write_all(&ws_frame(p, 2, is_c2s, sent)).await.is_err() {
                             return 2;
@@ -435,6 +478,11 @@ where
                                 let mut o = rec.lock().unwrap();
                                 if is_c2s { o.fwd_log_c2s.push((t, sent)) } else { o.fwd_log_s2c.push((t, sent)) }
                             }
+                        }
+                    }
+                    if let Some(a) = after {
+                        if wr.write_all(&ws_frame(&a, 2, is_c2s, sent ^ 0xaa)).await.is_err() {
+                            return 2;
                         }
                     }
                 }
